@@ -44,7 +44,7 @@ ASSUMPTIONS = [
     "the heading shows the count scaled with the recipe (header note) is covered by the correspondence oracle only",
 ]
 RULE = ("documents whose first heading is ATX / setext (closing hashes, leading spaces, multi-line setext), level 1 or 2, "
-        "preceded or not by prose / recipe blocks / quoted headings, followed by further headings; titles that contain the serving phrase earlier with the identical spelling (and the phrase doubled), one- and two-character titles (letter, digit, astral), titles with 'for', "
+        "preceded or not by prose / recipe blocks / quoted headings, followed by further headings; EMPTY first headings of levels 1-3 followed by a plain H1; titles that contain the serving phrase earlier with the identical spelling (and the phrase doubled), one- and two-character titles (letter, digit, astral), titles with 'for', "
         "digits, punctuation, entities, non-ASCII, '%', inline markup, raw inline HTML that is not an element (comment, processing instruction, declaration, CDATA: no title, no count, plain rendering), scaled-value braces with and without numbers, empty braces, escaped braces (plain text); a count of 0 (must be shown); every documented phrase x "
         "case variants (incl. U+017F, U+212A, U+0130/0131) x spacings (space, tab, NBSP, U+3000, several) x N (1 digit "
         "to 4301 digits, leading zeros) x trailing space; near-miss endings; a case is non-trivial when the document "
@@ -120,6 +120,11 @@ def oracle(spec: Dict[str, Any], res: Dict[str, Any]) -> Optional[str]:
         # no heading first / lower level / markup: no serving count (the title is not constrained by the text)
         if servings is not None:
             return f"serving count {servings} inferred although {spec['why_not']}"
+        if spec.get("first_empty"):
+            # an EMPTY first heading is the first heading: nothing is taken from any later heading
+            want = "" if spec["first_empty"] == 1 else None
+            if title != want:
+                return f"title {title!r} although the first heading is an empty level-{spec['first_empty']} heading"
         if spec.get("brace") and title is not None:
             # a heading with a scaled-value (brace) expression, with or without a number inside: no title either
             return f"title {title!r} inferred although the heading contains a brace expression"
@@ -164,6 +169,8 @@ def structure_ok(doc: str, spec: Dict[str, Any]) -> bool:
         return m is None
     if m is None:
         return False
+    if spec.get("first_empty"):
+        return int(m.group(1)) == spec["first_empty"] and html.unescape(m.group(2)).strip() == ""
     if spec.get("lenient"):
         return True
     if not spec["captured"]:
@@ -545,6 +552,19 @@ def suites(tier: str, seed: int) -> List[Suite]:
                 if doc not in seen and structure_ok(doc, spec):
                     seen.add(doc)
                     ti.cases.append(make_case(doc, spec, ["systematic", "title:brace-no-number", "style:" + style]))
+    # an empty first heading (levels 1-3) followed by a plain H1 with a serving phrase: only the first heading counts
+    for ph in phrases:
+        for lvl, first in [(1, "#"), (1, "# #"), (1, "# &#32;"), (2, "##"), (2, "## &#32;"), (2, "## ##"), (3, "###"),
+                           (3, "### ###")]:
+            for later in ("# Soup " + " ".join(ph) + " 2", "Soup " + " ".join(ph) + " 2\n===="):
+                for gap in ("\n\n", "\n"):
+                    doc = first + gap + later + "\n\nProse.\n"
+                    spec = {"captured": False, "why_not": "the first heading is empty (only the first heading counts)",
+                            "first_empty": lvl, "phrase": None, "percent": False, "heading": first,
+                            "heading_plain": ""}
+                    if doc not in seen and structure_ok(doc, spec):
+                        seen.add(doc)
+                        ti.cases.append(make_case(doc, spec, ["systematic", "first-heading-empty", f"level:{lvl}"]))
     # a count of zero
     for ph in phrases:
         for digits in ("0", "00"):
